@@ -18,7 +18,7 @@ type pVia struct {
 
 // genRespVia: one Via entry of a response: transport skeleton, IPv4 literal with a symbolic
 // last octet or a name of the host table, optional port, parameters in any of the listed kinds.
-func genRespVia(L int, tag string, deep bool) pVia {
+func genRespVia(L int, tag string, deep bool, slim bool) pVia {
 	var v pVia
 	if deep {
 		// entries below the next hop only have to survive untouched: a smaller skeleton
@@ -26,18 +26,27 @@ func genRespVia(L int, tag string, deep bool) pVia {
 		v.host = "10.0.2." + rt.Dec("octet", 2)
 		v.ip = v.host
 		v.text = "SIP/2.0/" + v.transport + " " + v.host
-		if rt.Bool("hasport") {
+		if !slim && rt.Bool("hasport") {
 			v.port = genPort()
 			v.text += ":" + v.port
 		}
 		v.text += ";branch=z9hG4bK" + tag + rt.Str("br", "alnum", 1, L)
-		if rt.Bool("deep-params") {
+		if !slim && rt.Bool("deep-params") {
 			v.text += ";received=10.0.4." + rt.Dec("roctet", 2) + ";rport=" + genPort() + ";" + rt.Str("xk", "[a-qs-z]", 1, L) + "=" + rt.Str("xv", clsToken, 1, L)
 		}
 		return v
 	}
-	v.transport = []string{"UDP", "TCP", "udp", "TLS", "SCTP"}[rt.Choice("transport", 5)]
-	switch hk := rt.Choice("hostkind", 3); {
+	if slim {
+		// X=2: the layout is what varies (three entries, blanks around commas); transports and host kinds are covered by the other configurations
+		v.transport = []string{"UDP", "TCP"}[rt.Choice("transport", 2)]
+	} else {
+		v.transport = []string{"UDP", "TCP", "udp", "TLS", "SCTP"}[rt.Choice("transport", 5)]
+	}
+	hkn := 3
+	if slim {
+		hkn = 1
+	}
+	switch hk := rt.Choice("hostkind", hkn); {
 	case hk == 1:
 		v.host, v.ip = "ua.example.com", "10.0.2.77"
 	case hk == 2: // the next hop is one of the proxy's own backends (a backend originated the request)
@@ -100,6 +109,9 @@ func VC02_Response() {
 	L, N, X := rt.Param("L"), rt.Param("N"), rt.Param("X")
 	w := newWorld(worldOpts{nBackends: 1, hosts: map[string]string{"ua.example.com": "10.0.2.77"}})
 	n := rt.Choice("nvia", N) + 1
+	if X == 2 {
+		n = N // always N entries: what follows the next hop's entry on its line matters
+	}
 	var vias []pVia
 	head := ""
 	for i := 0; i < n; i++ {
@@ -107,7 +119,7 @@ func VC02_Response() {
 		if i == 0 {
 			v = pVia{text: "SIP/2.0/UDP 10.0.0.9:5060;branch=z9hG4bKown"}
 		} else {
-			v = genRespVia(L, itoa(i), i >= 2 && X == 0)
+			v = genRespVia(L, itoa(i), i >= 2 && X != 1, X == 2)
 		}
 		vias = append(vias, v)
 		if i > 0 && rt.Bool("comma") {
@@ -123,7 +135,7 @@ func VC02_Response() {
 	head += "\r\n"
 	status := rt.Int("status", 100, 699)
 	method, toTag := "OPTIONS", ";tag=b"
-	if X != 0 {
+	if X == 1 {
 		method = []string{"OPTIONS", "SUBSCRIBE", "INVITE", "BYE"}[rt.Choice("cseq-method", 4)]
 		if rt.Bool("no-to-tag") {
 			toTag = "" // e.g. a 100 Trying
